@@ -45,6 +45,10 @@ def alloc_programs(rng, n):
 
 # hand-written programs over move-only / non-Send / borrowing values; each must compile and evaluate to the given i64
 BORROW = [
+    # wrappers are plain (non-`move`) closures: what the inner chain captures by reference stays the caller's
+    ('join', 'let mut n = 0i64; let r = join! { Some(1_i64) |> >>> -> |x| { n += 1; x + 1 } <<< }; let _ = r; n', 1),
+    ('try_join', 'let mut a = 0i64; let mut b = 0i64; let r = try_join! { Some(Some(1_i64)) => >>> |> |x| { a += 1; x } <<< |> |x| { b += 10; x }, Some(2_i64) }; let _ = r; a + b', 11),
+    ('join', 'let mut n = 0i64; let r = join! { Some(3_i64) ?> >>> -> |x: &i64| { n += *x; true } ~|> |x| x + 1, Some(1_i64) }; let _ = r; n', 3),
     ('join', 'let mut acc = 0i64; let r = join! { Some(1_i64) |> |x| { acc += x; x + 1 }, Some(2_i64) }; let _ = r; acc + 100', 101),
     ('try_join', 'let seen = std::cell::RefCell::new(Vec::<i64>::with_capacity(4)); let r = try_join! { Some(1_i64) ?? |x| seen.borrow_mut().push(x.unwrap_or(0)) ~|> |x| x + 1, Some(5_i64) ~|> |x| x }; let n = seen.borrow().len() as i64; r.map(|(a, b)| a + b).unwrap_or(-1) + n', 8),
     ('join', 'let t = Tok::new(3); let r = join! { Some(t) |> |t| bump(t, 1) ~|> |t| bump(t, 1), Some(Tok::new(10)) |> |t| bump(t, 5) }; match r { (Some(a), Some(b)) => a.0 + b.0, _ => -1 }', 20),
@@ -91,9 +95,9 @@ def render(allocp, borrow):
     return '\n'.join(L) + '\n', linemap
 
 
-def run(rng, tier):
+def run(rng, tier, only_borrow=False):
     """-> dict(cases, failures[list of dict(macro, dsl, why)], rejected[list], dist)"""
-    allocp = alloc_programs(rng, 150 if tier == 'quick' else 1200)
+    allocp = [] if only_borrow else alloc_programs(rng, 150 if tier == 'quick' else 1200)
     borrow = list(BORROW)
     os.makedirs(os.path.join(RT, 'src', 'bin'), exist_ok=True)
     shutil.copyfile(os.path.join(jv.REPO, 'Cargo.lock'), os.path.join(RT, 'Cargo.lock'))
@@ -141,4 +145,4 @@ def run(rng, tier):
             elif f[3] != f[4]:
                 failures.append({'macro': mac, 'dsl': body, 'why': 'move-only values created %s, dropped %s' % (f[3], f[4])})
     return {'cases': n, 'failures': failures, 'rejected': rejected, 'dist': {'alloc_programs': len(allocp), 'borrow_programs': len(borrow)},
-            'samples': [{'stage': 'nocost', 'macro': allocp[0][0], 'dsl': allocp[0][1][:200]}, {'stage': 'nocost', 'macro': BORROW[2][0], 'dsl': BORROW[2][1][:200]}]}
+            'samples': ([{'stage': 'nocost', 'macro': allocp[0][0], 'dsl': allocp[0][1][:200]}] if allocp else []) + [{'stage': 'nocost', 'macro': BORROW[0][0], 'dsl': BORROW[0][1][:200]}]}
